@@ -57,6 +57,24 @@ impl Win {
         }
         Win { buf, off, len: bytes }
     }
+    /// large window for reference runs: lazily mapped zero pages, garbage in the first 64 KiB only
+    pub fn roomy(bytes: usize, fill: u64) -> Win {
+        let mut buf = vec![0u8; bytes + 2 * GUARD + 64];
+        let base = buf.as_ptr() as usize;
+        let off = GUARD + (64 - (base + GUARD) % 64) % 64;
+        let mut x = fill | 1;
+        for v in buf[off..off + bytes.min(1 << 16)].iter_mut() {
+            x ^= x << 13;
+            x ^= x >> 7;
+            x ^= x << 17;
+            *v = x as u8;
+        }
+        for i in 0..GUARD {
+            buf[off - GUARD + i] = 0xA5 ^ i as u8;
+            buf[off + bytes + i] = 0x5A ^ i as u8;
+        }
+        Win { buf, off, len: bytes }
+    }
     pub fn scratch<B: FullBackend>(&mut self) -> &mut Scratch<B> {
         let (o, l) = (self.off, self.len);
         Scratch::<B>::from_bytes(&mut self.buf[o..o + l])
@@ -180,13 +198,49 @@ pub fn run_all(ctx: &Ctx) {
     let t = ctx.tier;
     ctx.run_sub("binfhe_exact_scratch", t.pick(256, 4_000), 16, strategy, test);
     ctx.run_sub("binfhe_blind_rotation_exact_scratch", t.pick(4_000, 100_000), 64, crate::c14::br_strategy, crate::c14::test_br_c12);
+    ctx.run_sub("binfhe_wrapped_cells", t.pick(512, 20_000), 16, crate::c15b::strategy, test_wrapped);
+}
+
+/// the cell-level cases of C15 (swap, selection, retrieval, blind rotations of the BDD layer, circuit bootstrapping)
+/// once with ample windows and once with every converted call site on exactly its own query (see `spb.rs`)
+pub fn test_wrapped(c: &crate::c15b::Case) -> Verdict {
+    use crate::spb::*;
+    use pzv_common::driver::{guarded, panic_sig};
+    let mut res: Vec<Result<Verdict, String>> = vec![];
+    let mut last = ("", 0usize);
+    let mut seen: Vec<&'static str> = vec![];
+    for exact in [false, true] {
+        SP_MODE.with(|m| m.set(Some((exact, 0x6161 + exact as u64))));
+        SP_SEEN.with(|s| s.borrow_mut().clear());
+        SP_LAST.with(|l| l.set(("", 0)));
+        let r = guarded(|| crate::c15b::test(c));
+        SP_MODE.with(|m| m.set(None));
+        last = SP_LAST.with(|l| l.get());
+        seen = SP_SEEN.with(|s| s.borrow().clone());
+        if !sp_finish() {
+            return Verdict::fail(format!("{}|guard-damaged", last.0), format!("bytes outside a scratch window were written (last exact window: {} with {} bytes)\ncase={c:?}", last.0, last.1));
+        }
+        if !exact && r.is_err() {
+            return Verdict::pass(false, &["panics_with_ample_scratch"]);
+        }
+        res.push(r);
+    }
+    match (&res[0], &res[1]) {
+        (Ok(_), Err(p)) => Verdict::fail(format!("{}|exact-scratch-panic|{}", last.0, panic_sig(p)), format!("routine={}: panics when its call gets a window of exactly the queried {} bytes (no panic with ample scratch): {p}\ncase={c:?}", last.0, last.1)),
+        (Ok(Verdict::Pass(_)), Ok(Verdict::Fail { sig, detail })) => Verdict::fail(format!("{}|oracle-fails-only-with-exact-scratch|{sig}", last.0), format!("the value oracle passes with ample scratch and fails when every call gets exactly its queried bytes: {detail}")),
+        (Ok(Verdict::Pass(_)), Ok(_)) => Verdict::pass(!seen.is_empty(), &seen),
+        _ => Verdict::pass(false, &["value_oracle_fails_with_ample_scratch"]),
+    }
 }
 
 pub fn replay(ctx: &Ctx, sub: &str, case: &serde_json::Value) -> i32 {
+    if sub == "binfhe_wrapped_cells" {
+        return ctx.replay_case::<crate::c15b::Case, _>(sub, case, test_wrapped);
+    }
     if sub == "binfhe_blind_rotation_exact_scratch" {
         return ctx.replay_case::<crate::c14::BrCase, _>(sub, case, crate::c14::test_br_c12);
     }
     ctx.replay_case::<Case, _>(sub, case, test)
 }
 
-pub const RULE: &str = "binary-FHE layer: cases = (backend in FFT64Ref/FFT64Avx/NTT120Ref, shipped test layout, call in {the 11 word operations single-threaded, the same through *_multi_thread with 2/3/5/7 threads, FheUint::encrypt_sk, FheUint::decrypt, fhe_uint_prepare, fhe_uint_prepare_custom_multi_thread}, generated operands and seeds). The call under audit receives a 64-byte aligned scratch window of exactly the bytes of its own size query (<op>_tmp_bytes, <op>_multi_thread_tmp_bytes, encrypt_sk_tmp_bytes, decrypt_tmp_bytes, threads x fhe_uint_prepare_tmp_bytes) inside guard regions, twice with different garbage; the result bytes must equal those of the run with ample scratch. non-trivial = query > 0. Sub-check binfhe_blind_rotation_exact_scratch: the blind-rotation cases of C14 (N 8..64, extension factor 1..8, standard / block-binary keys, ranks, radices, result sizes): BlindRotationKeyPrepared::execute on a window of exactly execute_tmp_bytes(block_size, extension_factor, result layout, key layout), two garbage fills and two different prior contents of the destination, against the run on ample garbage-filled scratch.";
+pub const RULE: &str = "binary-FHE layer: cases = (backend in FFT64Ref/FFT64Avx/NTT120Ref, shipped test layout, call in {the 11 word operations single-threaded, the same through *_multi_thread with 2/3/5/7 threads, FheUint::encrypt_sk, FheUint::decrypt, fhe_uint_prepare, fhe_uint_prepare_custom_multi_thread}, generated operands and seeds). The call under audit receives a 64-byte aligned scratch window of exactly the bytes of its own size query (<op>_tmp_bytes, <op>_multi_thread_tmp_bytes, encrypt_sk_tmp_bytes, decrypt_tmp_bytes, threads x fhe_uint_prepare_tmp_bytes) inside guard regions, twice with different garbage; the result bytes must equal those of the run with ample scratch. non-trivial = query > 0. Sub-check binfhe_blind_rotation_exact_scratch: the blind-rotation cases of C14 (N 8..64, extension factor 1..8, standard / block-binary keys, ranks, radices, result sizes): BlindRotationKeyPrepared::execute on a window of exactly execute_tmp_bytes(block_size, extension_factor, result layout, key layout), two garbage fills and two different prior contents of the destination, against the run on ample garbage-filled scratch. Sub-check binfhe_wrapped_cells: the cell-level cases of C15 (word swap, blind selection, stateful retrieval and its inverse, the blind retriever, GLWE / GGSW blind rotations of the BDD layer, circuit bootstrapping to a constant / an exponent) run once with ample windows and once with each of these calls (and ggsw_prepare) on a window of exactly its own *_tmp_bytes query; violation = a panic or a failing value oracle only the exact run shows, or a damaged guard region.";
